@@ -137,12 +137,18 @@ func isLenOfBitmapList(v ssa.Value) bool {
 
 func ruleF10(p *Prog) *RuleResult {
 	res := newResult("F10", ruleDoc["F10"], 2)
-	e, err := p.TL("32")
-	if err != nil {
-		res.undecided("anchors", "-", err.Error())
-		return res
-	}
-	for _, name := range []string{"(*roaring.Bitmap).Xor", "(*roaring.Bitmap).AndNot"} {
+	for _, spec := range []struct{ name, level string }{
+		{"(*roaring.Bitmap).Xor", "32"}, {"(*roaring.Bitmap).AndNot", "32"},
+		// the 64-bit in-place Xor walks the operand's table with a length read before the loop while it
+		// removes cancelled buckets from the receiver: with receiver == operand it runs off the end
+		{"(*roaring64.Bitmap).Xor", "64"},
+	} {
+		name := spec.name
+		e, err := p.TL(spec.level)
+		if err != nil {
+			res.undecided("anchors:"+spec.level, "-", err.Error())
+			continue
+		}
 		f := p.Func(name)
 		if f == nil {
 			res.undecided(name, "-", "anchor not found")
